@@ -33,7 +33,94 @@ PROP_SETTERS = {
 }
 
 
+def run_direct(plan):
+    """The second observation point of the property: Command subclasses' tobytes(), used directly (a caller that
+    builds its own commands), many in one process, in any order and with every attribute value."""
+    from .common import World, codec
+    w = World(seed=plan.get("seed", 0), msg_id_start=plan.get("msg_id_start", 0))
+    res = Result()
+    C = w.ns.command
+    n = [0]
+
+    def build(spec):
+        k = spec[0]
+        if k == "state":
+            c = C.GetStateCommand()
+            c.temperature_type = C.TemperatureType(spec[1])
+            return c, 0x03, b"\x41"
+        if k == "energy":
+            return C.GetEnergyUsageCommand(), 0x03, b"\x41"
+        if k == "humidity":
+            return C.GetHumidityCommand(), 0x03, b"\x41"
+        if k == "caps":
+            return C.GetCapabilitiesCommand(bool(spec[1])), 0x03, b"\xb5"
+        if k == "toggle":
+            c = C.ToggleDisplayCommand()
+            c.beep_on = bool(spec[1])
+            return c, 0x03, b"\x41"
+        if k == "getprops":
+            return C.GetPropertiesCommand([C.PropertyId(x) for x in spec[1]]), 0x03, b"\xb1"
+        if k == "setprops":
+            return C.SetPropertiesCommand({C.PropertyId(pid): v for pid, v in spec[1]}), 0x02, b"\xb0"
+        c = C.SetStateCommand()
+        for a, v in spec[1].items():
+            setattr(c, a, v)
+        return c, 0x02, b"\x40"
+
+    async def main(w):
+        prev = None
+        for spec in plan["commands"]:
+            cmd, ftype, first = build(spec)
+            frame = cmd.tobytes()
+            n[0] += 1
+            try:
+                req = codec.frame_parse_strict(frame)
+            except codec.RefError as e:
+                res.fail("malformed frame: " + str(e), f"{spec}: {bytes(frame).hex()}")
+                return
+            if req["type"] != ftype or req["body"][:1] != first:
+                res.fail(f"frame type {req['type']:#x} for command 0x{req['body'][0]:02x}", f"{spec}")
+                return
+            body = req["body"]
+            from refmodel import acmodel
+            try:
+                if first == b"\xb1":
+                    ids = acmodel.parse_b1_query(body)
+                    if sorted(ids) != sorted(spec[1]):
+                        res.fail("device-side strict parser rejected a command (b1: ids differ from the requested ones)", f"{spec}")
+                        return
+                elif first == b"\xb0":
+                    recs = acmodel.parse_b0_set(body)
+                    if [p for p, _v in recs] != [p for p, _v in spec[1]]:
+                        res.fail("device-side strict parser rejected a command (b0: records differ from the requested ones)",
+                                 f"{spec}: {[hex(p) for p, _v in recs]}")
+                        return
+                elif first == b"\x40":
+                    acmodel.decode_control(body)
+            except codec.RefError as e:
+                res.fail(f"device-side strict parser rejected a command ({e})", f"{spec}: {bytes(frame).hex()}")
+                return
+            if prev is not None and req["msg_id"] != (prev + 1) & 0xFF:
+                res.fail("message id does not advance by one modulo 256", f"{prev} -> {req['msg_id']} at command {n[0]}")
+                return
+            prev = req["msg_id"]
+
+    try:
+        w.run(main)
+    except Exception as e:
+        if res.ok:
+            raise
+    res.take(w)
+    res.fired["command_built_directly"] = n[0]
+    res.probes["commands_checked"] = n[0]
+    res.key = repr(plan["commands"])[:4000]
+    res.nontrivial = n[0] >= 10
+    return res
+
+
 def run(plan):
+    if plan.get("mode") == "direct":
+        return run_direct(plan)
     s = Session(plan, max_iterations=40_000)
     w = s.world
     dev = s.dev
@@ -259,6 +346,34 @@ def gen(j, rng, nops):
 
 def space(tier):
     sp = Space(ID)
+    SETTABLE_PIDS = [0x0009, 0x000A, 0x0018, 0x001A, 0x0039, 0x0042, 0x0043, 0x0048, 0x00E3]
+
+    def direct(j, rng):
+        cmds = []
+        for _ in range(rng.randint(10, 60)):
+            k = rng.choice(["state", "state", "energy", "humidity", "caps", "toggle", "getprops", "setprops", "set"])
+            if k == "state":
+                cmds.append(["state", rng.choice([0, 2, 3])])
+            elif k in ("energy", "humidity"):
+                cmds.append([k])
+            elif k == "caps":
+                cmds.append(["caps", rng.random() < 0.5])
+            elif k == "toggle":
+                cmds.append(["toggle", rng.random() < 0.5])
+            elif k == "getprops":
+                cmds.append(["getprops", rng.sample(SETTABLE_PIDS + [0x0015, 0x004B, 0x021E], rng.randint(1, 8))])
+            elif k == "setprops":
+                pids = rng.sample(SETTABLE_PIDS, rng.randint(1, 6))          # any record order, IECO anywhere
+                cmds.append(["setprops", [[pid, (rng.random() < 0.5) if pid in (0x0018, 0x001A, 0x0039, 0x00E3) else
+                                           rng.choice([0, 1, 2, 3, 4, 25, 50, 100])] for pid in pids]])
+            else:
+                cmds.append(["set", {"power_on": rng.random() < 0.5, "target_temperature": rng.randint(26, 86) / 2.0,
+                                     "operational_mode": rng.randint(1, 6), "fan_speed": rng.randint(1, 102),
+                                     "eco": rng.random() < 0.5, "turbo": rng.random() < 0.5, "sleep": rng.random() < 0.5,
+                                     "fahrenheit": rng.random() < 0.5, "beep_on": rng.random() < 0.5,
+                                     "target_humidity": rng.randint(0, 100), "aux_heat": rng.random() < 0.5}])
+        return {"mode": "direct", "commands": cmds, "msg_id_start": rng.choice([0, 200, 250, 255, 65535])}
+    sp.add("commands_built_directly", 600 if tier == "quick" else 60_000, direct)
     sp.add("long_histories", 60 if tier == "quick" else 6000, lambda j, rng: gen(j, rng, 260), wall_limit=600)
     sp.add("short_histories", 2400 if tier == "quick" else 40_000, lambda j, rng: gen(j, rng, 30))
 
